@@ -576,6 +576,41 @@ class C12(Prop):
             lim = "maxseq=%d maxpacket=%d unpackers=%d" % (rng.choice([0, 1, 2, 3]), rng.choice([0, 0, 11, 40]), rng.randrange(0, 5))
             out.append({"name": "dsqopen%d" % c, "ops": ["dsqopen %s expect=%s mut=%s %s" % (body, expect, mut, lim)]})
             stats["dsqopen"] = stats.get("dsqopen", 0) + 1
+        # --- data files cut short BEHIND the header (round 6): each of .dsqi / .dsqm / .dsqs truncated at every record / sequence boundary
+        #     (a superset of the chunk boundaries) and one byte either side, plus the header boundaries; run in a forked child under the watchdog.
+        #     .dsqm / .dsqs: the loader's short-read branch (esl_fatal, the documented outcome); .dsqi: fread's short count is taken as end of data
+        def cut_db():
+            amino = rng.random() < 0.45
+            abc = "amino" if amino else rng.choice(["dna", "rna"])
+            nseq = rng.choice([1, 2, 3, 4, 5, 6, 8])
+            seqs = [self.rand_dsq(rng, amino, rng.choice([20, 50, 100])) for _ in range(nseq)]
+            c = self.dsq_case("x", abc, seqs, 0, 0, 0, 1, 1, 0, rng)
+            a = kv(c["ops"][0])
+            mp = max(npk(d, amino) for d in seqs)
+            return "abc=%s names=%s descs=%s dsq=%s" % (abc, a["names"], a["descs"], a["dsq"]), a, amino, seqs, mp
+        unx_ = lambda x: list(bytes.fromhex(x[1:]))
+        for c in range(5 if quick else 60):
+            body, a, amino, seqs, mp = cut_db()
+            names = [unx_(x) for x in a["names"].split(",")]; descs = [unx_(x) for x in a["descs"].split(",")]
+            idx, md, sq = dsq_files(0, 2, [(n, [], d, -1, q) for n, d, q in zip(names, descs, seqs)], amino)
+            maxseq = rng.choice([1, 1, 2, 3, 0]); maxpacket = rng.choice([mp, mp, mp + 1, 2 * mp, 0]); U_ = rng.randrange(0, 5)
+            pts = {"dsqi": [52 + 16 * i for i in range(len(seqs) + 1)], "dsqm": [8], "dsqs": [8]}
+            mpos = spos = 0
+            for n_, d_, q_ in zip(names, descs, seqs):
+                mpos += len(n_) + 1 + 1 + len(d_) + 1 + 4; spos += 4 * npk(q_, amino)
+                pts["dsqm"].append(8 + mpos); pts["dsqs"].append(8 + spos)
+            ops = []
+            for f, L in (("dsqi", len(idx)), ("dsqm", len(md)), ("dsqs", len(sq))):
+                ats = set()
+                for b in pts[f]: ats.update([b - 1, b, b + 1])
+                ats.update([rng.randrange(0, L + 1) for _ in range(3)]); ats.update([L, L + 1, L - 1])
+                if not quick: ats.update([0, 4, 7])
+                for at in sorted(x for x in ats if 0 <= x <= L + 1):
+                    if quick and rng.random() < 0.35 and at not in (L, L - 1): continue
+                    ops.append("dsqcut %s file=%s at=%d maxseq=%d maxpacket=%d unpackers=%d pert=%d seed=%d" % (
+                        body, f, at, maxseq, maxpacket, U_, rng.choice([0, 0, 30, 70]), rng.randrange(1, 1 << 30)))
+            stats["dsqcut"] = stats.get("dsqcut", 0) + len(ops)
+            out.append({"name": "dsqcut%d" % c, "ops": ops})
         # --- systematic sweep, every run: flip EACH byte of EACH header field that esl_dsqdata_Open validates (magic and tag of the three
         #     data files, the alphabet type), set the type field to every interesting value, with and without a caller alphabet
         k = 0
@@ -606,6 +641,7 @@ class C12(Prop):
     def canonical(self, line):
         if line.startswith("fault "): return "fault"
         if " tag=" in line and line.startswith(("ok stub=", "open-")): return "ok deferred"      # compared in compare(), once the random uniquetag is known
+        if line.startswith("cut-fatal "): return line.split(" delivered=")[0].split(" chunks=")[0]     # how far the consumer got before the process ended is up to the schedule (compare())
         i = line.find(" trace=")
         return line[:i] if i >= 0 else line
 
@@ -631,6 +667,14 @@ class C12(Prop):
             return d
         # trace validation: the logged run must be a path of the model and satisfy the invariants at every step
         for i, (op, l) in enumerate(zip(case["ops"], impl_out)):
+            if op.startswith("dsqcut ") and l.startswith("cut-fatal ") and i < len(model_out) and " chunks=" in model_out[i]:
+                # the chunks the consumer received before the loader ended the process: a prefix of the chunks the model's loader had loaded
+                got = l.split(" delivered=")[1].split()[0]; want = model_out[i].split(" chunks=")[1].split()[0]
+                g = [] if got == "-" else got.split(","); w_ = [] if want == "-" else want.split(",")
+                ctx.stats["cut_fatal"] = ctx.stats.get("cut_fatal", 0) + 1
+                ctx.stats["cut_fatal_delivered_chunks"] = ctx.stats.get("cut_fatal_delivered_chunks", 0) + len(g)
+                if g != w_[:len(g)]:
+                    return (i, "delivered before the fatal short read: " + got, "a prefix of " + want)
             if op.startswith(("dsqwrite ", "dsqopen ")) and " tag=" in l:
                 # the uniquetag is random and the stub names the sequence file: ask the model for the same tag / name, compare exactly
                 j = l.find(" tag=")
@@ -747,6 +791,29 @@ class C12(Prop):
                 if any(off < 8 and x != 0 for (f_, off), x in net.items()) or any(int(m[2]) < 8 for m in truncs):
                     if not l.startswith("open-eformat "):
                         return Failure("monitor", "a corrupted / missing magic or tag was not answered eslEFORMAT: mut=%s -> %r" % (a["mut"], l[:200]))
+            elif w[0] == "dsqcut":
+                if l.startswith(("fault", "atexit", "cut-odd")):
+                    return Failure("fault", "reading a database whose %s was cut at byte %s hung / crashed / ended irregularly: %s" % (a["file"], a["at"], l[:200]))
+                unx = lambda x: list(bytes.fromhex(x[1:]))
+                names, descs, ds = [[unx(x) for x in a[k].split(",")] for k in ("names", "descs", "dsq")]
+                amino = a["abc"] == "amino"
+                idx, md, sq = dsq_files(0, 2, [(n, [], d, -1, q) for n, d, q in zip(names, descs, ds)], amino)
+                L = {"dsqi": len(idx), "dsqm": len(md), "dsqs": len(sq)}[a["file"]]
+                at, hdr = int(a["at"]), (52 if a["file"] == "dsqi" else 8)
+                if at < hdr:
+                    if not l.startswith("open-eformat "):
+                        return Failure("monitor", "a data file cut inside its header was not refused with eslEFORMAT: %s at=%d -> %r" % (a["file"], at, l[:200]))
+                elif at >= L:
+                    if not l.startswith("cut-ok ") or kv(l)["nseq"] != str(len(ds)):
+                        return Failure("monitor", "an intact database was not read to its end: %r" % l[:200])
+                elif a["file"] != "dsqi":
+                    # data missing behind the header: the documented outcome is the loader's fatal error; what must never happen is eslEOF
+                    # after a part of the sequences (a truncated database passed off as a complete one), a hang, or a crash
+                    if not l.startswith("cut-fatal who=loader"):
+                        return Failure("monitor", "%s cut at byte %d of %d: expected the loader's fatal short-read error, got %r" % (a["file"], at, L, l[:200]))
+                else:
+                    if not l.startswith(("cut-ok ", "cut-fatal who=loader")) or (l.startswith("cut-ok ") and int(kv(l)["nseq"]) > (at - 52) // 16):
+                        return Failure("monitor", "dsqi cut at byte %d: %r" % (at, l[:200]))
             elif w[0] == "dsqrt":
                 if l.startswith(("fault", "atexit")):
                     return Failure("fault", "threaded read-back died: %s" % l[:200])
@@ -777,7 +844,8 @@ class C12(Prop):
 
     def extra_evidence(self, ctx):
         return {"input_distribution": ctx.stats.get("inputs", {}), "trace_steps_validated": ctx.stats.get("trace_steps_validated", 0),
-                "file_bytes_compared_exactly": ctx.stats.get("bytes_compared", 0)}
+                "file_bytes_compared_exactly": ctx.stats.get("bytes_compared", 0),
+                "cut_runs_ended_by_loader_fatal": ctx.stats.get("cut_fatal", 0), "chunks_delivered_before_those_fatals": ctx.stats.get("cut_fatal_delivered_chunks", 0)}
 
 
 SPEC = C12()
